@@ -66,6 +66,7 @@ func Eval(c *core.Ctx, line string) *core.Case {
 			return "ok"
 		})
 		if impl == "notparsed" {
+			c.Why = "Session.Parse does not classify the frame as 802.3"
 			return nil
 		}
 		return &core.Case{Line: line, Impl: impl, Trivial: len(b) < 3,
@@ -85,10 +86,13 @@ func Eval(c *core.Ctx, line string) *core.Case {
 }
 
 func add(c *core.Ctx, class, line string) {
-	if cs := Eval(c, line); cs != nil {
-		cs.Class = class
-		c.Add(*cs)
+	cs := Eval(c, line)
+	if cs == nil {
+		c.Drop(class, "not evaluated")
+		return
 	}
+	cs.Class = class
+	c.Add(*cs)
 }
 
 func GenL2(c *core.Ctx) {
